@@ -156,6 +156,13 @@ def table():
     rows.append(row("leave until(set flag) after a break point",
                     {"op": "scope", "label": "S", "children": [], "body": [],
                      "until": {"k": "flag", "n": "F"}}, flag_on, between=("scope.body-", "scope-")))
+    late = {"op": "spawn", "into": "root", "actor": {"name": "late", "ops": [{"op": "now"}]}}
+    rows.append(row("leave until(set flag) whose body made an activity runnable",
+                    {"op": "scope", "label": "S", "children": [], "body": [late],
+                     "until": {"k": "flag", "n": "F"}}, flag_on, between=("scope.body-", "scope-")))
+    rows.append(row("leave Scope whose body made an activity runnable",
+                    {"op": "scope", "label": "S", "children": [], "body": [late]},
+                    between=("scope.body-", "scope-")))
     rows.append(row("leave Scope with finished child",
                     {"op": "scope", "label": "S", "children": [{"name": "kid", "ops": []}],
                      "body": [{"op": "postpone", "k": 3}]}, between=("scope.body-", "scope-")))
@@ -249,6 +256,25 @@ def check(rec):
                 bad("no-yield", "row %r: %s completed at t=%r within one activation although %s "
                     "was runnable at that time" % (name, rec.trace[s][4], now, behind[0][2]))
                 continue
+        # the statement itself: whoever was runnable at that time when the operation started
+        # (made runnable for this time step, not yet served) runs before it completes
+        if rec.sched and rec.acts:
+            now, me = rec.trace[s][2], rec.trace[s][3]
+            t0, t1 = rec.trace[s][0], rec.trace[e][0]
+            for tick_s, when, _, sig, due, ident in rec.sched:
+                if tick_s > t0 or due != now or when != now:
+                    continue
+                # (targets are pinned for the whole run, so ids are not reused)
+                turn = next((a for a in rec.acts if a[0] > tick_s and a[4] == ident
+                             and a[3] == sig), None)
+                who = turn[2] if turn is not None else "?"
+                if who == me or who.startswith("~"):
+                    continue               # kernel helpers run no program code
+                if turn is not None and turn[1] == now and turn[0] > t1:
+                    bad("no-yield", "row %r: %s was made runnable at t=%r (tick %d) before %s "
+                        "started (tick %d) but got its turn only after it completed (tick %d > %d)"
+                        % (name, who, now, tick_s, rec.trace[s][4], t0, turn[0], t1))
+                    break
         for spinner, turns in spinners.items():
             if turns[0] < s and turns[-1] > e and not any(s < t < e for t in turns):
                 bad("no-yield", "row %r: %s completed (log %d..%d, t=%r) without %s getting a turn"
